@@ -47,7 +47,7 @@ RespOK(e, exp) ==
               /\ got.view.md5 = exp.md5 /\ got.view.size = exp.size
          [] e.ev = "ResumablePut" -> exp.persisted > 0 => got.persisted = exp.persisted
          [] e.ev = "GetMedia" -> /\ ("amb" \in DOMAIN exp \/ got.body = exp.body) /\ got.henc = exp.enc /\ got.hgen = exp.view.gen /\ got.hmetagen = exp.view.metagen
-                                 /\ got.hctype = exp.view.attrs.ct
+                                 /\ got.hctype = exp.view.attrs.ct /\ got.hcd = exp.view.attrs.cd
          [] e.ev \in {"GetMeta", "Patch"} -> ViewOK(got.view, exp.view)
          [] e.ev = "Copy" -> /\ ViewOK(got.view, exp.view) /\ got.done
                              /\ got.rewritten = exp.size /\ got.objectSize = exp.size
